@@ -154,8 +154,8 @@ static void runVector(const char* const* w, const size_t* wl, int n) {
       bool more = args.read(ch, arg);
       const char* ecls = at < ex.items.n ? ex.items[at].cls : "end-of-arguments"; if (afterAlt) ecls = "after-long-flag-with-value";
       if (!more) { if (at != ex.items.n) fail(key("Process.Arguments.read/%s/ended-early", ecls), "read() returned false after %lu of %lu expected items", (unsigned long)at, (unsigned long)ex.items.n); break; }
-      if (at >= ex.items.n) { Text t; t.addEsc(arg.data->str, arg.length()); fail(key("Process.Arguments.read/%s/extra-item", ecls), "read() produced an item after the expected %lu: character %d argument \"%s\"", (unsigned long)ex.items.n, ch, t.c()); }
-      Item& it = ex.items[at]; size_t al = arg.length(); const char* ad = arg.data->str;
+      if (at >= ex.items.n) { Text t; t.addEsc((const char*)arg, arg.length()); fail(key("Process.Arguments.read/%s/extra-item", ecls), "read() produced an item after the expected %lu: character %d argument \"%s\"", (unsigned long)ex.items.n, ch, t.c()); }
+      Item& it = ex.items[at]; size_t al = arg.length(); const char* ad = (const char*)arg;
       bool ok = ch == it.ch && al == it.arg->n && !memcmp(ad, it.arg->c(), al);
       if (!ok && it.alt) ok = ch == it.altCh && (al == 0 || (al == it.altVal->n && !memcmp(ad, it.altVal->c(), al)));
       if (!ok) { Text t; t.addEsc(ad, al); Text e; e.addEsc(it.arg->c(), it.arg->n); fail(key("Process.Arguments.read/%s/%s", ecls, ch != it.ch ? "character" : "argument"), "item %lu: got character %d ('%c') argument \"%s\", expected %d ('%c') \"%s\"", (unsigned long)at, ch, ch > 32 && ch < 127 ? ch : '.', t.c(), it.ch, it.ch > 32 && it.ch < 127 ? it.ch : '.', e.c()); }
@@ -293,7 +293,7 @@ static void processCases(bool backslashMode) {
       char val[32]; snprintf(val, sizeof val, "m%ld", idx); setctx("Process.setEnvironmentVariable");
       if (!Process::setEnvironmentVariable(String("VT_MARK"), String(val, strlen(val)))) fail("Process.setEnvironmentVariable/result", "returned false");
       String back = Process::getEnvironmentVariable(String("VT_MARK"));
-      if (back.length() != strlen(val) || memcmp(back.data->str, val, strlen(val))) fail("Process.getEnvironmentVariable/value", "does not return the value that was just set");
+      if (back.length() != strlen(val) || memcmp((const char*)back, val, strlen(val))) fail("Process.getEnvironmentVariable/value", "does not return the value that was just set");
       for (char** e = environ; *e; ++e) expectEnv.push(strdup(*e));
     }
     qsort(expectEnv.d, expectEnv.n, sizeof(char*), cmpStr);
